@@ -2,7 +2,7 @@
 from ..core import ints
 from . import _plan
 ID = "C13"
-PROPS = ["F1Verif.Props.C13", "F1Verif.Props.FactsC13", "F1Verif.Props.C15"]
+PROPS = ["F1Verif.Props.C13", "F1Verif.Props.FactsC13", "F1Verif.Props.C15", "F1Verif.Props.Pipeline"]
 RULE = ("relational correspondence on api.WithJitter (random source internal): the harness logs (rate_k, out_k) for "
         "scripted rate sequences — constant, bursty (R,0), (R,0,0,0), zero-heavy, ramps, small rates 1-3, large rates — "
         "at jitter 0, 0.5, 2, 12.25, 20, 50, 75, 99.875 percent over 200 to 20000 ticks (10^5-10^6 in the thorough tier); "
@@ -58,6 +58,9 @@ def generate(rng, tier):
         for jn, jd in [(20, 1), (50, 1), (799, 8)]:
             out.append(case(jn, jd, 10**6, [3]))
             out.append(case(jn, jd, 10**6, [1000, 0]))
+    # end to end: the composed pipeline of a constant trigger (ParseRate -> WithJitter -> NewDistribution) over whole cycles
+    for _ in range({"quick": 60, "thorough": 800, "search": 200}[tier]):
+        out.append(_plan.pipeline_case(rng, cycles=rng.choice([10, 100, 400, 2000])))
     # where the jitter value comes from: config files whose stages spell jitter 0, another value, or inherit the default's
     for _ in range({"quick": 60, "thorough": 800, "search": 200}[tier]):
         out.append(_plan.jitter_plan_case(rng))
@@ -76,6 +79,8 @@ def nontrivial_key(rec):
     a = rec["case"].split()
     if a[0] == "plan":
         return rec["case"] if "jitter=0" in rec["case"] else None
+    if a[0] == "pipeline":
+        return rec["case"] if a[2] != "0" else None
     if a[1] != "0" and int(a[3]) >= 200 and any(x not in ("0", "-") for x in a[4].split(",")):
         return rec["case"]
     return None
@@ -87,6 +92,9 @@ def distribution(recs):
         a = r["case"].split()
         if a[0] == "plan":
             d["config_files"] = d.get("config_files", 0) + 1
+            continue
+        if a[0] == "pipeline":
+            d["pipelines"] = d.get("pipelines", 0) + 1
             continue
         d["ticks_total"] += int(a[3])
         d["zero_jitter"] += a[1] == "0"
